@@ -204,6 +204,17 @@ def I1_copy(k1, k2, o1, o2, nk, no, r0, r1, r2, r3, exits, partial, pend, poll, 
     return 5
 
 
+@obligation(params=dict(k1=Bytes(4, min=1), k2=Bytes(1, min=1), partial=Bool(), pend=Bytes(1), poll=Bool(), filt=Bool(), two=Bool()),
+            tags={2: 'escape typed', 4: 'escape typed twice in one read', 3: 'child exited'}, timeout=600, split=('two',),
+            note='one longer keyboard read (<= 4 bytes, escape anywhere) optionally preceded by a one-byte read, with '
+                 'partial writes towards the child: the bytes before the escape reach the child completely '
+                 '(added after a seeded change that wrote that prefix with a single os.write was missed at 2-byte reads)')
+def I1b_escape_prefix(k1, k2, partial, pend, poll, filt, two):
+    if two:
+        return I1_copy(k2, k1, lit(b'x'), lit(b'y'), 2, 0, 2, 2, 1, 0, True, partial, pend, poll, filt, 0)
+    return I1_copy(k1, k2, lit(b'x'), lit(b'y'), 1, 0, 2, 1, 1, 0, True, partial, pend, poll, filt, 0)
+
+
 @obligation(params=dict(boom=Int(1, 3), o1=Bytes(2, min=1), k1=Bytes(2, min=1)), tags={2: 'mode restored after an exception'},
             timeout=200,
             note='an exception raised inside the copy loop (here: from the n-th os.write) still restores the saved mode')
@@ -239,8 +250,8 @@ def I2_restore_on_error(boom, o1, k1):
     return 2
 
 
-@obligation(params=dict(uni=Bool(), lr=Bool(), ls=Bool(), lf=Bool(), o1=Bytes(2, min=1, maxch=128), k1=Bytes(2, min=1, maxch=0x1d)),
-            tags={2: 'bytes mode', 3: 'unicode mode'}, timeout=300,
+@obligation(params=dict(uni=Bool(), lr=Bool(), ls=Bool(), lf=Bool(), o1=Bytes(2, min=1, maxch=128), k1=Bytes(3, min=1, maxch=0x1e)),
+            tags={2: 'bytes mode', 3: 'unicode mode', 4: 'bytes mode, escape typed', 5: 'unicode mode, escape typed'}, timeout=300,
             note='logging during interact: the read log gets what the child wrote, the send log what was typed, the '
                  'common log both in order, each write flushed, in the string type of the API (C11)')
 def I3_logging(uni, lr, ls, lf, o1, k1):
@@ -273,7 +284,12 @@ def I3_logging(uni, lr, ls, lf, o1, k1):
         except Skip:
             return SKIP
     want = []
-    for name, on, val in (('all', lf, o1), ('r', lr, o1), ('all', lf, k1), ('s', ls, k1)):
+    # what was typed up to the first escape character is what is sent - and logged; the escape and the rest are not
+    i = k1.find(bytes([ESC]))
+    sent = k1 if i < 0 else k1[:i]
+    for name, on, val in (('all', lf, o1), ('r', lr, o1), ('all', lf, sent), ('s', ls, sent)):
+        if val is sent and len(sent) == 0:
+            continue
         if on:
             want.append((name, 'write', val))
             want.append((name, 'flush', None))
@@ -290,6 +306,8 @@ def I3_logging(uni, lr, ls, lf, o1, k1):
                     return 0
             elif not isinstance(v, bytes) or not (v == exp[2]):
                 return 0
+    if i >= 0:
+        return 5 if uni else 4
     return 3 if uni else 2
 
 
